@@ -21,6 +21,7 @@ ASSUME = [
     "operations respect the directory pacing condition of C01 (enforced by the generator, re-validated on the recorded history)",
 ]
 PROBE = "__probe"
+OUT_WEIGHTS = dict(fm.DEFAULT_WEIGHTS, out_mkfile=2, out_mkdir=1, out_rmtree=2, moveout=3)
 
 
 def probe_dirs(run, tree):
@@ -61,7 +62,7 @@ class FsScenario(Scenario):
         if cfg.random() < 0.03:
             n = 40
         paced = cfg.random() < self.paced_share
-        w = dict(self.weights or fm.DEFAULT_WEIGHTS)
+        w = dict(self.pick_weights(cfg) or fm.DEFAULT_WEIGHTS)
         if paced:
             w.pop("drain", None)
         else:
@@ -81,6 +82,9 @@ class FsScenario(Scenario):
 
     def tweak(self, case, rng, cfg):
         pass
+
+    def pick_weights(self, cfg):
+        return self.weights
 
     def shrink(self, case):
         def rebuilt(ops=None, pre=None):
@@ -295,6 +299,10 @@ class C03(FsScenario):
     paced_share = 0.6
     with_probes = False
 
+    def pick_weights(self, cfg):
+        # a third of the runs also operate on entries that have left the tree (phantom events)
+        return OUT_WEIGHTS if cfg.random() < 0.33 else None
+
     def judge(self, run, res, sim, verdict):
         v = generic_violations("C03", sim, verdict, res)
         if not res.get("done"):
@@ -304,9 +312,82 @@ class C03(FsScenario):
             from .fsworld import classify_event
 
             kinds = sorted({classify_event(b["shape"]) for b in bad})
-            v.append(Violation("unsound", "C03:unjustified-event:" + ",".join(kinds[:3]), f"{[b['shape'] for b in bad[:4]]} not explained by ops {run.case['ops']}"))
+            # events caused by operations on a directory after it was moved out of the tree (its kernel watch survives
+            # the move): every unjustified event was delivered after such an operation was issued
+            out_ops = [c["opi"] for c in run.contracts if c["op"][0].startswith("out_")]
+            if out_ops and all(b["opi"] >= min(out_ops) for b in bad):
+                v.append(Violation("phantom", "C03:phantom:dir-moved-out", f"{[b['shape'] for b in bad[:4]]} reported for operations on a directory that had been moved out of the watched tree; ops={run.case['ops']}"))
+            else:
+                v.append(Violation("unsound", "C03:unjustified-event:" + ",".join(kinds[:3]), f"{[b['shape'] for b in bad[:4]]} not explained by ops {run.case['ops']}"))
         for c in run.oracle_contract():
+            if c["op"][0].startswith("out_"):
+                continue  # phantom events of operations outside the tree are reported by the soundness oracle above
             what = ("missing" if c["missing"] else "") + ("extra" if c["extra"] else "") + ("dup" if c["dup"] else "")
             v.append(Violation("contract", f"C03:contract:{c['op'][0]}:{what}:{'rec' if run.recursive else 'nonrec'}{':full' if run.full else ''}", f"{c}"))
             break
+        return v
+
+
+
+class C07(FsScenario):
+    prop = "C07"
+    design_ref = "DESIGN.md 3.1, 4/C07"
+    level = "exploration"
+    rule = (C01.rule + "; extended alphabet: operations on directories after they were moved out of the tree, names re-used after a drain, deletion of the root as last operation; "
+            "vanish faults: right before the library's k-th inotify_add_watch the entry it is about to watch is really removed (<=2 per run, half of the runs)")
+    level_text = ("Liveness under histories and transient lookup failures: no library thread ends with an uncaught exception, the run neither deadlocks nor hangs, a probe file in every directory "
+                  "that exists after the history is still reported, and after the root was deleted exactly one DirDeletedEvent(root) is delivered, the emitter and its reader thread have "
+                  "finished and nothing further is delivered.")
+    level_note = C01.level_note + "; fault-free and vanish-fault configurations are counted separately in the evidence"
+    weights = OUT_WEIGHTS
+    nonrec_share = 0.15
+
+    def tweak(self, case, rng, cfg):
+        frng = random.Random(f"{cfg.random()}:vanish")
+        if frng.random() < 0.5:
+            m = fm.Model()
+            for op in case["pre"]:
+                fm.apply(m, op)
+            n0 = len(m.dirs_in("root"))  # add_watch calls made by schedule/start itself are never faulted
+            case["faults"]["vanish"] = {str(n0 + frng.randrange(0, 12)): True for _ in range(frng.choice([1, 1, 2]))}
+        if rng.random() < 0.25:
+            kept, m = fm.revalidate(case["pre"], case["ops"], paced=True)
+            case["ops"].append(["drain"])
+            case["ops"].append(["rmroot"])
+
+    def after_ops(self, run, res, sim):
+        import os
+
+        if "root" in run.model.t:
+            return
+        # root was deleted: exactly one DirDeleted(root), emitter and reader finished, nothing further is delivered
+        res["root_deleted"] = True
+        res["root_deleted_events"] = [e["shape"] for e in run.events if e["shape"][2] == "root" and e["shape"][0] == "deleted"]
+        res["alive_after_rmroot"] = [t.name for t in sim.tasks if t.kind == "lib" and t.state != DONE and not t.name.startswith("BaseObserver")]
+        n0 = len(run.events)
+        os.mkdir(run.real("root"))
+        with open(run.real("root/again"), "w"):
+            pass
+        sim.wait_quiescent()
+        res["events_after_rmroot"] = [e["shape"] for e in run.events[n0:]]
+        import shutil
+
+        shutil.rmtree(run.real("root"))
+
+    def judge(self, run, res, sim, verdict):
+        v = generic_violations("C07", sim, verdict, res)
+        if not res.get("done"):
+            return v
+        pr = res.get("probes")
+        faulty = bool(run.vanished)
+        if pr and pr["missing"]:
+            v.append(Violation("unreported", f"C07:later-change-unreported:{'rec' if run.recursive else 'nonrec'}{':after-vanish' if faulty else ''}", f"after the history, changes in {pr['missing']} are not reported; ops={run.case['ops']} vanished={run.vanished}"))
+        if res.get("root_deleted"):
+            n = len(res["root_deleted_events"])
+            if n != 1:
+                v.append(Violation("root-deleted", f"C07:root-deleted-events={n}", f"expected exactly one DirDeletedEvent(root), got {res['root_deleted_events']}"))
+            if res["alive_after_rmroot"]:
+                v.append(Violation("root-deleted", "C07:threads-alive-after-root-deleted:" + ",".join(sorted({n.split('#')[0] for n in res["alive_after_rmroot"]})), f"{res['alive_after_rmroot']}"))
+            if res["events_after_rmroot"]:
+                v.append(Violation("root-deleted", "C07:events-after-root-deleted", f"{res['events_after_rmroot'][:5]}"))
         return v
